@@ -9,7 +9,7 @@ QuickSlices == <<
   \* B: two services on one placement, two profiles
   Sl("B", <<"api", "web">>, <<"large", "small">>, <<"east">>,
      [s \in {"api", "web"} |-> IF s = "web" THEN AllBodies ELSE NoneAll],
-     [s \in {"api", "web"} |-> IF s = "web" THEN {"none", "http", "two", "fan"} ELSE {"none", "httphosts", "local", "udp"}],
+     [s \in {"api", "web"} |-> IF s = "web" THEN {"none", "http", "two", "fan", "twoglobal"} ELSE {"none", "httphosts", "local", "udp"}],
      {2}, [c \in {"large", "small"} |-> IF c = "large" THEN <<List(<<QLarge>>)>> ELSE <<List(<<QSmall>>)>>]),
   \* C: two services, two profiles, two placements, every deployment mapping
   Sl("C", <<"api", "web">>, <<"large", "small">>, <<"east", "west">>,
